@@ -28,6 +28,13 @@ def emit(ctx, cfg, what, workers=8):
 LAM = 2.0 ** -60      # physical size of the unit tier when a case uses the tier encoding (energies >= 1000 are "tier 0")
 
 
+def set_lam(v):
+    """Physical size of the unit tier (energy ratio).  2^-60 puts thresholds at relative size 1e-9; 2^-80 at 1e-12,
+    which with a data scale of 1e-6 asks for accuracies below the machine epsilon in absolute terms."""
+    global LAM
+    LAM = v
+
+
 def tiered(case):
     return any(e['en'] >= 1000 for e in case['ent'])
 
@@ -72,10 +79,16 @@ def judge(case, rz, err2, Zd, n, Qs, scale, budget_total, what):
         if rz != o['ranks']:
             return '%s: ranks %s, specification %s (cap-limited=%s)' % (what, rz, o['ranks'], o['capHit'])
         dphys = phys(o['dropped'], case) * scale * scale
-        if abs(err2 - dphys) > tol + 1e-9 * dphys:
+        # the measured error carries the rounding of the (possibly 1e12 times larger) kept part: noise nz in norm
+        nz = 32 * np.finfo(float).eps * np.sqrt(N)
+        slack = 2 * np.sqrt(dphys) * nz + nz * nz
+        if slack > 0.25 * unit:
+            slack = 0.25 * unit      # decisions are in whole units: a quarter of a unit still separates the outcomes
+        if abs(err2 - dphys) > tol + 1e-9 * dphys + slack:
             return '%s: err^2 %.6g, specification %.6g' % (what, err2, dphys)
         E = F.survivors_dense(n, phys_ent(case), o['live'], Qs, scale)
-        if np.abs(E - Zd).max() > (1e-3 * np.sqrt(LAM) if tiered(case) else 1e-9 * np.sqrt(phys(case['N'], case))) * scale:
+        # unit-tier entries have amplitude sqrt(LAM): present / absent is decided far above the rounding of the tier-0 part
+        if np.abs(E - Zd).max() > (max(1e-3 * np.sqrt(LAM), 64 * np.finfo(float).eps * np.sqrt(phys(case['N'], case))) if tiered(case) else 1e-9 * np.sqrt(phys(case['N'], case))) * scale:
             return '%s: result differs from the surviving entries by %.3g' % (what, np.abs(E - Zd).max())
         return None
     # a tie straddles a cut: the truncated SVD is not unique; inequalities only
@@ -83,6 +96,30 @@ def judge(case, rz, err2, Zd, n, Qs, scale, budget_total, what):
         if err2 > budget_total * (1 + 1e-9) + tol:
             return '%s (tie): err^2 %.6g above the bound %.6g' % (what, err2, budget_total)
     return None
+
+
+def near_symmetric(case, rng):
+    """A d = 2 member whose n x n unfolding is symmetric up to a relative perturbation of ~1e-6 (returns None if the
+    case has no such relative): the last index is re-labelled so that two entries of equal energy become mirror images
+    (a symmetry of the family), and every amplitude is perturbed by (1 + eta_t), |eta_t| <= 3 * 2^-22.  Decisions of the
+    model are unchanged (integer energies); replayed with the same rotation on both modes."""
+    ent = case['ent']
+    n = len(ent)
+    if case['d'] != 2 or case['npre'] != n or tiered(case) or len({tuple(e['pre']) for e in ent}) != n:
+        return None
+    pairs = [(t, u) for t in range(n) for u in range(t + 1, n) if ent[t]['en'] == ent[u]['en'] and ent[t]['en'] > 0]
+    if not pairs:
+        return None
+    t0, u0 = pairs[int(rng.integers(len(pairs)))]
+    tau = {t: t for t in range(n)}
+    tau[t0], tau[u0] = u0, t0
+    c = {t: int(ent[tau[t]]['pre'][0]) for t in range(n)}            # new last index of entry t
+    etas = rng.permutation([1, -1, 2, -2, 3, -3, 0, 0][:max(n, 2)])[:n] * 2.0 ** -22
+    new_ent = [None] * n
+    for t in range(n):
+        new_ent[c[t]] = dict(pre=ent[t]['pre'], en=float(ent[t]['en']) * (1 + etas[t]) ** 2)
+    outs = [dict(o, live=[c[j - 1] + 1 for j in o['live']]) for o in case['outcomes']]
+    return dict(case, ent=new_ent, outcomes=outs, N=float(sum(e['en'] for e in new_ent)), near_symmetric=True)
 
 
 def replay_truncate(ctx, case, rng, is_eigh, use_stab, scale_pow=0, pad=False, order=None):
@@ -118,14 +155,14 @@ def replay_truncate(ctx, case, rng, is_eigh, use_stab, scale_pow=0, pad=False, o
 def replay_svd(ctx, case, rng, scale_pow=0):
     d = case['d']
     Y, n = F.family_member(d, case['npre'], phys_ent(case))
-    Y, Qs = F.apply_symmetries(Y, n, rng, gauge=False)
+    Y, Qs = F.apply_symmetries(Y, n, rng, gauge=False, same_rot=bool(case.get('near_symmetric')))
     scale = 2.0 ** scale_pow
     Fd = F.dense(Y) * scale
     T = case['T']
     e = float(np.sqrt((T + 0.5) * (LAM if tiered(case) else 1.))) * scale
     cap = case['cap'] if case['cap'] != 99 else 1.E+12
     Z = teneva.svd(np.array(Fd), e, cap)
-    what = 'svd(e=%.4g, r=%s, scale 2^%d)' % (e, case['cap'], scale_pow)
+    what = 'svd(e=%.4g, r=%s, scale 2^%d%s)' % (e, case['cap'], scale_pow, ', nearly symmetric unfolding' if case.get('near_symmetric') else '')
     if not F.is_wellformed(Z, n):
         return what + ': result is not a well-formed finite TT-tensor of the input shape'
     rz = [int(G.shape[2]) for G in Z[:-1]]
@@ -137,7 +174,7 @@ def replay_svd(ctx, case, rng, scale_pow=0):
 def replay_matrix(ctx, case, rng, fn, give_to=None, scale_pow=0):
     """d = 2 cases through matrix_skeleton (give_to l/m/r, rel) and matrix_svd."""
     Y, n = F.family_member(2, case['npre'], phys_ent(case))
-    Y, Qs = F.apply_symmetries(Y, n, rng, gauge=False)
+    Y, Qs = F.apply_symmetries(Y, n, rng, gauge=False, same_rot=bool(case.get('near_symmetric')))
     scale = 2.0 ** scale_pow
     A = F.dense(Y) * scale
     if rng.random() < 0.5:
